@@ -22,6 +22,11 @@ BAD_FRAGMENTS = {
     "digitless_number": [b"-", b"+", b".", b"e", b"E", b"-e1", b".e1", b"--1", b"-+1", b"+-1", b"-a", b"- 1", b"-\"1\"", b"e5", b"E-5", b"-]",
                          # long runs of number characters without a digit after the sign (no accept verdict beyond 63, but nothing may be left behind)
                          b"-" * 62, b"-" * 63, b"-" * 64, b"-" * 65, b"-" + b"e" * 70, b"-." + b"e+" * 40, b"-" * 200],
+    # more than 63 number characters of which the C library reads only a proper prefix as a number: whatever the
+    # implementation does about the documented 63-character limit, the rest cannot follow a value
+    "long_number_bad_tail": [b"3." + b"1" * 61 + b"e+-.5e", b"0." + b"0" * 70 + b".5", b"2" + b"7" * 66 + b"E+", b"1" + b"2" * 62 + b"+-",
+                             b"1" * 64 + b"-1", b"1e5" + b"0" * 61 + b"e5", b"-" + b"9" * 63 + b"..", b"1" * 100 + b"e", b"0." + b"5" * 61 + b"e",
+                             b"1" * 63 + b".e1", b"4" * 62 + b"e+", b"-0." + b"0" * 60 + b"1-", b"6" * 63 + b"-", b"1.5" + b"0" * 200 + b"+1"],
     "unterminated_string": [b"\"abc", b"\"", b"\"abc\\\"", b"\"a\\\\\\\"", b"\"abc\\", b"\"\\u1234", b"\"a\nb"],
     "unknown_escape": [b"\"\\a\"", b"\"\\x41\"", b"\"\\U0041\"", b"\"\\'\"", b"\"\\0\"", b"\"\\ \"", b"\"\\\n\"", b"\"\\v\"", b"\"\\e\"",
                        b"\"\\N\"", b"\"\\B\"", b"\"\\T\"", b"\"ab\\qcd\"", b"\"\\1\"", b"\"\\\xc3\xa9\""],
@@ -52,7 +57,7 @@ class C03(Prop):
             "non-trivial = INVALID text whose first offending byte is at offset >= 1; distinct by text hash (by construction "
             "for the enumeration)")
     ASSUMPTIONS = ["the lenient envelope is the generous reading of the four permitted deviations (DESIGN.md Appendix C); texts inside it get no accept/reject verdict",
-                   "numbers runs > 63 characters and \\u0000 are UNDECIDED (documented limits)"]
+                   "runs of more than 63 number characters that the C library reads as ONE number, and \\u0000, are UNDECIDED (documented limits)"]
     REQUIRED_CLASSES = CLASSES + ["edit_invalid", "depth_over_limit", "truncation"]
 
     def budget(self, tier):
